@@ -127,9 +127,14 @@ class BitCrcRegisterBase(AbstractBitCrcRegister):
         See AbstractCrcRegister.update
         """
         if self._config.reverse_input_bytes:
-            # reverse a private copy, the caller's buffer stays as it was handed in
-            bits = bits.copy()
-            bits.bytereverse()
+            # reverse a private copy, the caller's buffer stays as it was handed in; whole octets are reversed in place,
+            # an incomplete last group within its own length (pad bits of the buffer are no part of the value)
+            whole: int = len(bits) - len(bits) % 8
+            head: bitarray = bits[:whole]
+            head.bytereverse()
+            tail: bitarray = bits[whole:]
+            tail.reverse()
+            bits = head + tail
 
         for start_bit in range(0, len(bits), self._config.feed_width_bits):
             self._process_bits(
